@@ -16,8 +16,12 @@ INVARIANT RotPreservesCross
 INVARIANT DotRotIsRotOfCross
 INVARIANT SezAxesAreGeographic
 INVARIANT SezDirIsUnit
+INVARIANT SezRotationIsRigid
+INVARIANT WrapAlgebra
 INVARIANT EmitVec
 INVARIANT EmitRot
 INVARIANT EmitDot
 INVARIANT EmitSite
 INVARIANT EmitLook
+INVARIANT EmitSiteVec
+INVARIANT EmitWrap
